@@ -10,29 +10,37 @@ META = dict(
               'theorems over all histories of an executable model of session_interface + sid/cookies/dual back-ends + abstract storage + cookie '
               'jars + virtual clock) + extracted-model correspondence on the real session_interface (cookie-jar adapter AND real HTTP front end) '
               'with interposed time() + independent token-level property oracle',
-    level_text=('Theorems in coq/C06/Props.v (31, all closed under the global context) over an executable model of session_interface::load/save '
-                '(new-session rule, fixed/renew/browser policy with the IEEE-double 10 % window, cookie_age, session_age, update_exposed), the '
+    level_text=('Theorems in coq/C06/Props.v (49, all closed under the global context) over an executable model of session_interface::load/save '
+                '(new-session rule, fixed/renew/browser policy with the IEEE-double 10 % window, cookie_age, session_age, update_exposed(force || renew)), '
+                'clear() resetting age/expiration/on_server to the configured defaults, the '
                 'packed entry codec, session_sid, session_cookies (symbolic MAC), session_dual, an abstract session_storage, per-browser cookie '
                 'jars and a virtual clock: codec round trip and totality; in every history every storage access uses a 32-hex id; clear kills '
                 'the id, reset removes the old id and issues the next output of the random source, moving back to the cookie leaves no server '
-                'record; a live record / client cookie is read back exactly, an expired / unknown / malformed / forged one reads empty; for '
-                'every history of other browsers, clock advances and attacker strings nobody else reads or changes a session; end to end '
-                '(server and client back-ends): the next request of a browser reads exactly the state the previous one left (values, exposed '
-                'flags, age, expiration mode, on-server flag) while now <= the deadline of the mode, the empty session afterwards - also in '
-                'closed form from the empty world over all fair histories (reachable-world invariant). exposed cookies: only exposed keys keep '
-                'a cookie, every new/changed/forced exposed entry is sent; the unconditional in-step statement is refuted (known finding). '
+                'record; the IEEE-double test of the 10 % window is exactly the integer test 10*delta < timeout for every int timeout; a request '
+                'that takes an early return of save() changes nothing but browser-side cookie expiry; a live record / client cookie is read back exactly, an expired / unknown / malformed / forged one reads empty; for '
+                'every history of other browsers, clock advances and attacker strings nobody else reads or changes a session (also across any number '
+                'of the browser\'s own unchanged requests); age / expiration / '
+                'on_server are always exactly what the entries _t/_h/_s record, for every script incl. clear(); end to end (server, client and '
+                'dual back-ends, scripts with clear() included): the next request of a browser reads exactly the state the previous one left '
+                '(values, exposed flags, age, expiration mode, on-server flag) while now <= the deadline of the mode, the empty session '
+                'afterwards - also in closed form from the empty world over all fair histories (reachable-world invariant). Exposed cookies: '
+                'only exposed keys keep a cookie; every new/changed/forced exposed entry is sent; in renew mode every save leaves the cookie of '
+                'every exposed value with exactly the lifetime of the session cookie, and the browser holds them as long as it holds the '
+                'session cookie, whatever other browsers / attackers do and across any number of unchanged requests of the same browser; a fixed-mode '
+                'save (not new, not reset) keeps deadline, cookie end and the untouched exposed cookies. For expiration browser and for reset_session() in fixed mode the '
+                'in-step statement is refuted by a computed witness (registered finding exposed-cookie-not-renewed-with-session-cookie). '
                 'The character test of valid_sid is regenerated from src/session_sid.cpp and proved equal to the model (256-point sweep). The '
                 'model is tied to the code by running the extracted model and the real cppcms::session_interface - over a cookie-jar adapter '
                 'with the real memory / file / network storages behind a logging decorator, and as session_interface(http::context&) behind a '
                 'real in-process HTTP service - on the same multi-browser histories with attacker cookies; an independent Python oracle '
-                'evaluates the property text on the implementation output alone. Two genuine defects found (known findings).'),
+                'evaluates the property text on the implementation output alone.'),
     level_note=('Trusted: Coq kernel + vm_compute; ExtrOcamlBasic extraction; the hand model (tied by correspondence; the only '
                 'source-generated leaf is the sid character test); symbolic MAC (an attacker string never carries a valid MAC unless it is a '
                 'verbatim replay); the browser model (a cookie is sent until its max-age elapsed, session cookies for ever); storages are '
                 'observed through the session_storage interface only; hypotheses on the random source (pairwise distinct, the drawn id well '
                 'formed) are explicit premises. Not covered: CSRF token generation, the empty key, negative ages, keys _t/_h/_s set by the '
-                'application, clear() followed by new values in one script (finding settings-lost-by-clear) in the theorems, end-to-end '
-                'theorem across a client<->server switch of the dual back-end, concurrency between requests, gc jobs.'),
+                'application, an exposed-in-step theorem for all modes (false for browser / fixed+reset, see the finding), concurrency '
+                'between requests, gc jobs.'),
 )
 
 GEN = {}
@@ -278,13 +286,58 @@ def directed_cases():
         out.append('hist loc=S stor=%s exp=B to=50 lim=64 | R 0 s:61:31 | R 1 s:61:32 | R 0 | R 1 | A 1 hist 0 id | R 1 | R 1 c | R 0 | T 51 | R 1 s:61:33 | R 0' % stor)
         out.append('hist loc=B stor=%s exp=F to=20 lim=0 | R 0 s:61:31 | R 0 o:0 | R 0 o:1 | R 0 o:0 | T 20 | R 0 s:61:39 | T 1 | R 0' % stor)
     out.append('hist loc=C stor=M exp=R to=100 lim=64 | R 0 s:61:31 | R 0 c | A 0 hist 0 id | R 0 | R 0 o:1 | R 0')
+    # clear() puts age / expiration / on_server back to the configured defaults (until set again in the same request): the save
+    # uses them (deadline, cookie lifetime, storage location) and the next request reads them
+    for loc in 'SCB':
+        for exp in 'FRB':
+            srv = '' if loc == 'C' else ' o:1'
+            out.append('hist loc=%s stor=M exp=%s to=20 lim=64 | R 0 a:5 p:%d%s c s:61:31 | R 0 | T 6 | R 0 | T 15 | R 0'
+                       % (loc, exp, {'F': 1, 'R': 0, 'B': 0}[exp], srv))
+            out.append('hist loc=%s stor=M exp=%s to=20 lim=64 | R 0 a:5 p:%d%s s:61:31 | R 0 c s:61:32 | T 6 | R 0 | T 15 | R 0'
+                       % (loc, exp, {'F': 2, 'R': 0, 'B': 1}[exp], srv))
+            out.append('hist loc=%s stor=M exp=%s to=20 lim=64 | R 0 s:61:31 x:61 | R 0 c a:7 s:61:32 | T 6 | R 0 c s:62:33 p:2 | T 8 | R 0 c | R 0'
+                       % (loc, exp))
+            # exposed values follow the session cookie: data-changing saves, renewals of the unchanged session, hide / expose again,
+            # switches of the expiration mode, reset_session
+            out.append('hist loc=%s stor=M exp=%s to=10 lim=64 | R 0 s:61:31 x:61 s:7a7a:39 x:7a7a | T 5 | R 0 s:62:32 | T 6 | R 0 s:62:33 | T 9 | R 0 | T 9 '
+                       '| R 0 h:61 | T 9 | R 0 x:61 | T 2 | R 0 e:7a7a | T 9 | R 0' % (loc, exp))
+            for p in (0, 1, 2):
+                out.append('hist loc=%s stor=M exp=%s to=10 lim=64 | R 0 s:61:31 x:61 | T 4 | R 0 p:%d | T 5 | R 0 s:62:32 | T 5 | R 0 s:62:33 | T 5 | R 0'
+                           % (loc, exp, p))
+            out.append('hist loc=%s stor=M exp=%s to=10 lim=64 | R 0 s:61:31 x:61 | T 5 | R 0 r | T 6 | R 0 s:62:33 | T 5 | R 0 r s:61:32 | T 6 | R 0' % (loc, exp))
+    return out
+
+
+OPS_SMALL = ['s:61:31', 's:61:32', 's:62:%s' % ('33' * 70), 'e:61', 'c', 'x:61', 'h:61', 'x:62', 'a:5', 'a:50', 'da', 'p:0', 'p:1', 'p:2', 'dp',
+             'o:0', 'o:1', 'r']
+
+
+def exhaustive_scripts(ctx):
+    """exhaustive small domain: EVERY script of at most two operations from OPS_SMALL (all pairs: clear after / before each
+    setting, reset with each mode, hide / expose with each mode ...) as the second request of a browser whose first request left
+    a=1 exposed with non-default age / expiration / on_server; then the clock passes the 10 % point and two more requests read the
+    result.  x location x expiration (quick: one initial state; thorough: two initial states, two clock offsets)"""
+    scripts = [[]] + [[a] for a in OPS_SMALL] + [[a, b] for a in OPS_SMALL for b in OPS_SMALL]
+    inits = ['s:61:31 x:61 a:20 p:%d o:1', 's:61:31 x:61 s:7a7a:39'] if ctx.scale(0, 1) else ['s:61:31 x:61 a:20 p:%d o:1']
+    dts = [(3, 18)] if not ctx.scale(0, 1) else [(3, 18), (1, 9)]
+    out = []
+    for loc in 'SCB':
+        for exp in 'FRB':
+            for init in inits:
+                i0 = init % {'F': 1, 'R': 2, 'B': 0}[exp] if '%d' in init else init
+                if loc == 'C':
+                    i0 = i0.replace(' o:1', '')
+                for d1, d2 in dts:
+                    for sc in scripts:        # (on_server(true) with client-only storage raises in save(): the oracle expects the refusal)
+                        out.append('hist loc=%s stor=M exp=%s to=10 lim=64 | R 0 %s | T %d | R 0 %s | T %d | R 0 | T 1 | R 0'
+                                   % (loc, exp, i0, d1, ' '.join(sc), d2))
     return out
 
 
 def gen_cases(ctx):
     rng = ctx.rng
-    cases = directed_cases()
-    n = ctx.scale(12000, 150000)
+    cases = directed_cases() + exhaustive_scripts(ctx)
+    n = ctx.scale(12000, 130000)
     for i in range(n):
         r = rng.random()
         stor = 'M' if r < 0.86 else ('F' if r < 0.95 else 'N')
@@ -331,7 +384,8 @@ def gen_http_cases(ctx):
     """histories for the production path (harness/C06_http.cpp): cookie-safe keys and attacker strings, nothing that raises"""
     rng = ctx.rng
     cases = [c for c in directed_cases() if ' P ' not in c and 'e:5f73' not in c and 'loc=C' not in c or (' o:1' not in c and ' P ' not in c)]
-    cases = [c for c in cases if 'stor=M' in c][:60] + [c for c in cases if 'stor=M' not in c]
+    mem = [c for c in cases if 'stor=M' in c]
+    cases = mem[:60] + [c for c in mem[60:] if ' c ' in c or ' x:' in c] + [c for c in cases if 'stor=M' not in c]
     for i in range(ctx.scale(400, 6000)):
         r = rng.random()
         stor = 'M' if r < 0.8 else ('F' if r < 0.9 else 'N')
@@ -404,7 +458,9 @@ def apply_ops(data, ops, st):
         elif op == 'e':
             data.pop(unhex(a[1]), None)
         elif op == 'c':
+            # clear(): no entries and the configured age / expiration / on_server again
             data.clear()
+            st['age'], st['how'], st['srv'] = st['age_def'], st['how_def'], False
         elif op in ('x', 'h'):
             k = unhex(a[1])
             data[k] = (data.get(k, (b'', False))[0], op == 'x')
@@ -454,6 +510,7 @@ def oracle_(case, out):
     hist = []          # distinct session cookie values emitted
     issued = set()     # '#n' ids seen so far
     planted = set()
+    trust = {}         # b -> keys whose exposed-value cookie in jar b was set by the server for the session cookie jar b holds now
     soft = []          # failures of the registered known-finding classes: remembered, evaluation continues (they must not mask others)
     for st, rs in zip(steps, res):
         kind = st[0]
@@ -473,11 +530,13 @@ def oracle_(case, out):
                 if st[4] != 'id':
                     v = 'raw:mutated'
             jars[b] = ((v, None) if v else None, xs)
+            trust[b] = set()
             continue
         if kind == 'X':
             xs = dict(xs)
             xs[unhex(st[2])] = (unhex(st[3]), None)
             jars[b] = (sess, xs)
+            trust.setdefault(b, set()).discard(unhex(st[2]))
             continue
         if kind == 'P':
             tok = 'raw:' + hexs(b'I' + st[2].encode())
@@ -486,8 +545,10 @@ def oracle_(case, out):
                 tokens[tok] = dict(data=d, deadline=int(st[3]), dead=False, corrupt=d is None, planted=True)
                 planted.add('=' + hexs(st[2].encode()))
             jars[b] = ((tok, None), xs)
+            trust[b] = set()
             continue
         # ---- a request ----
+        tr = trust.setdefault(b, set())
         m = R_RE.match(rs)
         if not m:
             return ('bad-output', 'request result does not parse: ' + rs[:200])
@@ -547,11 +608,7 @@ def oracle_(case, out):
         from_data = (e_age, e_how, (e_srv or 0) & 1)
         left = tok.get('mem', from_data) if alive_tok else from_data
         if (int(age), int(how), int(srv)) != left:
-            if (int(age), int(how), int(srv)) == from_data and tok.get('cleared'):
-                soft.append(('settings-lost-by-clear', 'previous request ended with age/expiration/on_server = %r (after clear() and new values), '
-                             'this request reads %s/%s/%s' % (left, age, how, srv)))
-            else:
-                return ('age-mode-flag-not-carried', 'age/expiration/on_server read as %s/%s/%s, left as %r' % (age, how, srv, left))
+            return ('age-mode-flag-not-carried', 'age/expiration/on_server read as %s/%s/%s, the previous request ended with %r' % (age, how, srv, left))
         # ---- what the request does ----
         data = dict(exp_data)
         stt = dict(age=e_age, how=e_how, srv=bool((e_srv or 0) & 1), reset=False, age_def=cfg['to'], how_def=how_def)
@@ -580,6 +637,7 @@ def oracle_(case, out):
             if new_xs:
                 return ('exposed-cookie-outlives-session', 'session was emptied but exposed-value cookies remain: %r' % sorted(map(repr, new_xs)))
             jars[b] = (new_sess, new_xs)
+            tr.clear()
             continue
         unchanged = (data == exp_data) and not newsess
         h, tval = stt['how'], stt['age']
@@ -590,7 +648,15 @@ def oracle_(case, out):
                 skip = True
             elif h in (1, 2) and (now + tval - tin) < tval * 0.1:
                 skip = True
-        force = unchanged
+        # update_exposed(force): an unchanged session that is renewed, and every save in renew mode, re-sends every exposed value
+        force = unchanged or h == 1
+        dropped = [k for k, v in exp_data.items() if v[1] and v[0] != b'' and k in tr and k not in xs and k in xs_pre and xs_pre[k][0] == v[0]]
+        # (only when this jar is the one that saved the session last: a stolen cookie used from another jar renews the session
+        # without this browser seeing any Set-Cookie)
+        own = alive_tok and tok.get('jar') == b
+        if dropped and sess is not None and own:
+            return ('exposed-cookie-expired-before-session', 'exposed key %r is in the live session and the browser still holds the session cookie, '
+                    'but the cookie of the exposed value (set by the server for this session) has already expired' % dropped[0])
         if skip:
             # nothing may change: same cookie, same deadline, same record
             if exc:
@@ -601,9 +667,6 @@ def oracle_(case, out):
                 return ('unchanged-session-deadline-moved', 'deadline in storage %r, expected %r' % (alive.get(old_server_id), tin))
             if new_xs != xs:
                 return ('unchanged-session-exposed-cookies-changed', '%r -> %r' % (xs, new_xs))
-            for k, v in data.items():
-                if v[1] and v[0] != b'' and k not in xs and k in xs_pre and xs_pre[k][0] == v[0]:
-                    soft.append(('exposed-cookie-expired-before-session', 'exposed key %r is in the live session but the browser already dropped its cookie' % k))
             jars[b] = (new_sess, new_xs)
             continue
         if toolong:
@@ -649,7 +712,7 @@ def oracle_(case, out):
             if deadline >= now and alive.get(nid) != deadline:
                 return ('stored-deadline-wrong', 'record %s has deadline %r, expected %r' % (nid, alive.get(nid), deadline))
             tokens[val] = dict(data=dict(data), deadline=deadline, dead=False, corrupt=False,
-                               mem=(stt['age'], stt['how'], int(stt['srv'])), cleared='c' in ops)
+                               mem=(stt['age'], stt['how'], int(stt['srv'])), jar=b)
         else:
             if not val.startswith('C:'):
                 return ('client-session-without-authentic-cookie', 'session cookie is %s' % val[:80])
@@ -665,7 +728,7 @@ def oracle_(case, out):
                 if tok is not None:
                     tok['dead'] = True
             tokens[val] = dict(data=dict(data), deadline=deadline, dead=False, corrupt=False,
-                               mem=(stt['age'], stt['how'], int(stt['srv'])), cleared='c' in ops)
+                               mem=(stt['age'], stt['how'], int(stt['srv'])), jar=b)
         if val not in hist:
             hist.append(val)
         # exposed values are in the cookies in step with the session
@@ -674,21 +737,39 @@ def oracle_(case, out):
         for k in sorted(want):
             changed = force or exp_data.get(k) != data[k]
             if gotx.get(k) == want[k]:
-                if changed and new_xs[k][1] != exp_exp:
-                    return ('exposed-cookie-lifetime-wrong', 'cookie of %r expires %r, session cookie %r' % (k, new_xs[k][1], exp_exp))
+                if changed:
+                    if new_xs[k][1] != exp_exp:
+                        return ('exposed-cookie-lifetime-wrong', 'cookie of %r expires %r, session cookie %r' % (k, new_xs[k][1], exp_exp))
+                    tr.add(k)
+                elif k in tr and not own:
+                    tr.discard(k)
+                elif k in tr:
+                    # not re-sent: it must live as long as the session can be used with the cookie that was just (re)issued
+                    # (a browser-session cookie is usable until the deadline kept by the server)
+                    xe = new_xs[k][1]
+                    if xe is not None and xe < (deadline if exp_exp is None else exp_exp):
+                        tr.discard(k)
+                        if h == 2 or (h == 0 and newsess):
+                            soft.append(('exposed-cookie-not-renewed-with-session-cookie', 'expiration %s: this save moved the end of the session '
+                                         'cookie to %r (deadline %r) but the cookie of the unchanged exposed key %r still expires at %r and was not '
+                                         're-sent' % ('browser' if h == 2 else 'fixed + reset_session()', exp_exp, deadline, k, xe)))
+                        else:
+                            return ('exposed-cookie-shorter-lived-than-session-cookie', 'cookie of exposed key %r expires at %r, the session cookie '
+                                    'at %r (deadline %r)' % (k, xe, exp_exp, deadline))
                 continue
             if changed:
                 return ('exposed-cookies-out-of-step', 'key %r was exposed/changed by this request but its cookie is %r' % (k, gotx.get(k)))
-            if k in xs_pre and xs_pre[k][0] == want[k]:
-                if k not in xs:
-                    soft.append(('exposed-cookie-expired-before-session', 'exposed key %r is in the live session but the browser already dropped its cookie and the save did not renew it' % k))
-                    continue
+            tr.discard(k)
+            if k in xs and xs[k][0] == want[k]:
                 return ('exposed-cookies-out-of-step', 'cookie of exposed key %r disappeared or changed: %r' % (k, gotx.get(k)))
         for k in sorted(gotx, key=repr):
             if k not in want:
                 if k in data and data[k][1] and not (force or exp_data.get(k) != data[k]):
                     continue      # exposed with an empty value, untouched: a planted cookie is not reconciled
                 return ('exposed-cookies-out-of-step', 'cookie for %r present but the session does not expose it' % (k,))
+        for k in list(tr):
+            if k not in want:
+                tr.discard(k)
         jars[b] = (new_sess, new_xs)
     return soft[0] if soft else None
 
@@ -744,7 +825,9 @@ def run(ctx):
                             'storage log + loadable ids), attacker cookie (literal malformed/path-like/unissued ids, verbatim or mutated replays '
                             'of emitted cookies), planted exposed cookie, planted (possibly corrupt) storage record. Directed cases cover the 10 % '
                             'window +-1 s, deadline = now +-1, limit +-1, reset after moving server-side, clear of a client-only session, replay '
-                            'of an old id. A case is non-trivial when at least one request read back a non-empty session; distinct = distinct lines.')
+                            'of an old id, clear() after / before each setting, exposed values across saves / renewals / mode switches / reset. Exhaustive '
+                            'small domain: every script of <= 2 operations out of 18 (343 scripts) as the second request on a session with '
+                            'non-default settings and an exposed value, x 3 locations x 3 expiration modes. A case is non-trivial when at least one request read back a non-empty session; distinct = distinct lines.')
     ctx.coverage['exhaustive'] = False
     try:
         vlib.differential(ctx, cases, exe, mexe, oracle, nontrivial, classify, impl_env={'C06_TMP': tmp},
